@@ -14,6 +14,7 @@ ap.add_argument('--runs', type=int)
 ap.add_argument('--scratch', action='store_true',
                 help='apply the patches in a temporary worktree of /repo HEAD '
                 'under /tmp and leave /repo alone')
+ap.add_argument('--checks', help='comma-separated check ids (default all)')
 ap.add_argument('names', nargs='*')
 args = ap.parse_args()
 REPO = '/repo'
@@ -44,7 +45,8 @@ for d in dirs:
         print(name, 'PATCH DOES NOT APPLY', r.stderr[:200])
         continue
     try:
-        for cid in ['C08', 'C09', 'C10', 'C12', 'C13', 'C17', 'C20']:
+        for cid in (args.checks.split(',') if args.checks else
+                    ['C08', 'C09', 'C10', 'C12', 'C13', 'C17', 'C20']):
             cmd = ['/verif/check', cid, '--tier', 'quick']
             if args.runs:
                 cmd += ['--runs', str(args.runs)]
